@@ -21,12 +21,13 @@ type VerifSpace struct {
 }
 
 type VerifKeeper struct {
-	Spaces   []VerifSpace
-	List     []string // workSpaceList order
-	ChanLen  int
-	Queue    []string // queued space ids (unordered view)
-	Popped   string
-	PoppedWM bool
+	Spaces      []VerifSpace
+	List        []string // workSpaceList order
+	ChanLen     int
+	Queue       []string // queued space ids (unordered view)
+	Popped      string
+	PoppedWM    bool
+	PoppedEpoch uint64
 }
 
 // VerifState returns the keeper's internal bookkeeping (taken under the state lock).
@@ -72,6 +73,7 @@ func (sk *SpaceKeeper) VerifState() VerifKeeper {
 	if sk.queue.poppedItem != nil {
 		out.Popped = sk.queue.poppedItem.ws.id.String()
 		out.PoppedWM = sk.queue.poppedItem.wouldMining
+		out.PoppedEpoch = sk.queue.poppedItem.epoch
 	}
 	sk.queue.Unlock()
 	return out
